@@ -11,9 +11,9 @@ import (
 
 // Knobs are world-level environment settings consulted by the pool hooks.
 type Knobs struct {
-	KeyCap   int // capacity of fresh J2TStateMachine.KeyCache   (-1 = library default)
-	FieldCap int // capacity of fresh J2TStateMachine.FieldCache (-1 = default)
-	ReqsCap  int // capacity of fresh J2TStateMachine.ReqsCache  (-1 = default)
+	KeyCap     int // capacity of fresh J2TStateMachine.KeyCache   (-1 = library default)
+	FieldCap   int // capacity of fresh J2TStateMachine.FieldCache (-1 = default)
+	ReqsCap    int // capacity of fresh J2TStateMachine.ReqsCache  (-1 = default)
 	BitmapOnes bool
 }
 
